@@ -889,3 +889,554 @@ Proof.
   - intros (bf & E & HI). apply filter_In in HI. exists bf. tauto.
   - intros (bf & HI & D & E). exists bf. split; [exact E|]. apply filter_In. auto.
 Qed.
+
+(** * 8a. [with_merge]: the general preservation lemma *)
+
+Lemma NoDup_app_intro' {A} (a b : list A) :
+  NoDup a -> NoDup b -> (forall x, In x a -> In x b -> False) -> NoDup (a ++ b).
+Proof.
+  induction a as [|y a IH]; intros NA NB D; [exact NB|].
+  cbn [app]. inversion NA as [|? ? NI NA']; subst. constructor.
+  - intros HI. apply in_app_or in HI. destruct HI as [HI|HI]; [auto|].
+    apply (D y); [now left | exact HI].
+  - apply IH; auto. intros x HA HB. apply (D x); [now right | exact HB].
+Qed.
+
+Lemma NoDup_app_l'' {A} (a b : list A) : NoDup (a ++ b) -> NoDup a.
+Proof.
+  induction a as [|y a IH]; intros ND; [constructor|].
+  cbn [app] in ND. inversion ND as [|? ? NI ND']; subst. constructor; auto.
+  intros HI. apply NI. apply in_or_app. now left.
+Qed.
+
+Lemma NoDup_app_r'' {A} (a b : list A) : NoDup (a ++ b) -> NoDup b.
+Proof.
+  induction a as [|y a IH]; intros ND; [exact ND|].
+  cbn [app] in ND. inversion ND; subst. auto.
+Qed.
+
+Lemma NoDup_app_disj' {A} (a b : list A) x : NoDup (a ++ b) -> In x a -> In x b -> False.
+Proof.
+  induction a as [|y a IH]; intros ND HA HB; [contradiction|].
+  cbn [app] in ND. inversion ND as [|? ? NI ND']; subst.
+  destruct HA as [->|HA].
+  - apply NI. apply in_or_app. now right.
+  - eauto.
+Qed.
+
+Lemma with_merge_tables v tids newtabs diff newfiles drops :
+  b_tables (with_merge v tids newtabs diff newfiles drops)
+  = newtabs ++ rest_tables tids (b_tables v).
+Proof. reflexivity. Qed.
+
+Lemma filter_all_true {A} (q : A -> bool) l : (forall x, In x l -> q x = true) -> filter q l = l.
+Proof.
+  induction l as [|x l IH]; intros H; cbn [filter]; [reflexivity|].
+  rewrite (H x (or_introl eq_refl)). f_equal. apply IH. intros y Hy. apply H. now right.
+Qed.
+
+Lemma with_merge_blobs v tids newtabs diff newfiles drops :
+  b_blobs (with_merge v tids newtabs diff newfiles drops)
+  = filter (fun bf => negb (memN (bf_id bf) drops)) (b_blobs v ++ newfiles).
+Proof.
+  unfold with_merge. cbn [b_blobs].
+  destruct (negb (is_nil diff) || negb (is_nil newfiles) || negb (is_nil drops)) eqn:C;
+    [reflexivity|].
+  apply orb_false_iff in C. destruct C as [C C3]. apply orb_false_iff in C. destruct C as [C1 C2].
+  apply negb_false_iff, is_nil_spec in C2, C3. subst newfiles drops.
+  rewrite app_nil_r. symmetry. apply filter_all_true. reflexivity.
+Qed.
+
+Lemma with_merge_gc_get v tids newtabs diff newfiles drops f :
+  In f (map bf_id (b_blobs (with_merge v tids newtabs diff newfiles drops))) ->
+  gc_get (b_gc (with_merge v tids newtabs diff newfiles drops)) f
+  = gadd (gc_get (b_gc v) f) (gtot diff f).
+Proof.
+  intros HI. apply has_file_In in HI. revert HI. unfold with_merge. cbn [b_blobs b_gc].
+  set (blobs' := if negb (is_nil diff) || negb (is_nil newfiles) || negb (is_nil drops)
+                 then _ else _).
+  intros HI. destruct (negb (is_nil diff) || negb (is_nil drops)) eqn:C.
+  - rewrite gc_get_prune, HI. apply gc_get_merge.
+  - apply orb_false_iff in C. destruct C as [C1 _]. apply negb_false_iff, is_nil_spec in C1.
+    subst diff. cbn [gtot]. now rewrite gadd_zero_r.
+Qed.
+
+Lemma with_merge_gkeys v tids newtabs diff newfiles drops :
+  NoDup (map fst (b_gc v)) ->
+  NoDup (map fst (b_gc (with_merge v tids newtabs diff newfiles drops))).
+Proof.
+  intros ND. unfold with_merge. cbn [b_gc].
+  destruct (negb (is_nil diff) || negb (is_nil drops)); [|exact ND].
+  apply keys_prune_nodup. now apply keys_merge_nodup.
+Qed.
+
+Lemma in_rest_tables tids tabs t : In t (rest_tables tids tabs) -> In t tabs.
+Proof. intros H. apply filter_In in H. tauto. Qed.
+Lemma in_sel_tables tids tabs t : In t (sel_tables tids tabs) -> In t tabs.
+Proof. intros H. apply filter_In in H. tauto. Qed.
+
+Lemma with_merge_inv d v tids newtabs diff newfiles drops nid L M K Nn :
+  BInvG d v -> ids_below nid v ->
+  NoDup (map fst newtabs) ->
+  (forall t, In t newtabs -> ~ In (fst t) (map fst (b_tables v))) ->
+  (forall t e, In t newtabs -> In e (snd t) -> wf_ind e = true) ->
+  Permutation (vptrs v) (L ++ M ++ K) ->
+  Permutation (tptrs newtabs ++ tptrs (rest_tables tids (b_tables v))) (Nn ++ K) ->
+  NoDup (map bf_id newfiles) ->
+  (forall bf, In bf newfiles -> nid <= bf_id bf /\ file_ok_P bf) ->
+  (forall p, In p Nn -> presolve newfiles p = true) ->
+  NoDup (map tgt Nn) ->
+  (forall bf fr, In bf newfiles -> In fr (frames bf) -> pointed Nn (bf_id bf) (fr_off fr) = true) ->
+  (forall f, gtot diff f = psum f L) ->
+  (forall f, In f drops -> f < nid) ->
+  (forall p, In p K -> ~ In (pf p) drops) ->
+  (forall p, In p M -> In (pf p) drops) ->
+  BInvG d (with_merge v tids newtabs diff newfiles drops).
+Proof.
+  intros I [IB1 IB2] NDt FRt WFt PV PN NDf NF RN NDn COV DIFF DRlt DRK DRM.
+  set (v' := with_merge v tids newtabs diff newfiles drops).
+  assert (b_blobs v' = filter (fun bf => negb (memN (bf_id bf) drops)) (b_blobs v ++ newfiles))
+    as EB by apply with_merge_blobs.
+  (* basic facts *)
+  assert (forall p, In p (vptrs v) -> pf p < nid) as Plt.
+  { intros p Hp. pose proof (presolve_has_file _ _ (bi_res _ _ I p Hp)) as H.
+    apply in_map_iff in H. destruct H as (bf & E & HI). rewrite <- E. auto. }
+  assert (forall p, In p Nn -> nid <= pf p) as Nge.
+  { intros p Hp. pose proof (presolve_has_file _ _ (RN p Hp)) as H.
+    apply in_map_iff in H. destruct H as (bf & E & HI). rewrite <- E. apply NF. exact HI. }
+  assert (forall p, In p K -> In p (vptrs v)) as KV.
+  { intros p Hp. eapply Permutation_in; [apply Permutation_sym; exact PV|].
+    apply in_or_app. right. apply in_or_app. now right. }
+  assert (forall p, In p L -> In p (vptrs v)) as LV.
+  { intros p Hp. eapply Permutation_in; [apply Permutation_sym; exact PV|].
+    apply in_or_app. now left. }
+  assert (NoDup (map tgt (L ++ M ++ K))) as NDall.
+  { eapply Permutation_NoDup; [apply Permutation_map; exact PV | apply (bi_inj _ _ I)]. }
+  assert (NoDup (map tgt (L ++ K))) as NDLK.
+  { rewrite !map_app in NDall. rewrite map_app.
+    apply NoDup_app_intro'.
+    - eapply NoDup_app_l''; eauto.
+    - eapply NoDup_app_r''. eapply NoDup_app_r''. exact NDall.
+    - intros x HA HB. eapply (NoDup_app_disj' _ _ x NDall HA). apply in_or_app. now right. }
+  assert (forall f, find_file (b_blobs v) f = None -> ~ In f drops ->
+                    find_file (b_blobs v') f = find_file newfiles f) as FFnew.
+  { intros f Hn Hd. rewrite EB, (find_file_filter (fun i => negb (memN i drops))).
+    apply memN_false in Hd. rewrite Hd. cbn [negb]. now rewrite find_file_app, Hn. }
+  assert (forall f bf, find_file (b_blobs v) f = Some bf -> ~ In f drops ->
+                       find_file (b_blobs v') f = Some bf) as FFold.
+  { intros f bf Hs Hd. rewrite EB, (find_file_filter (fun i => negb (memN i drops))).
+    apply memN_false in Hd. rewrite Hd. cbn [negb]. now rewrite find_file_app, Hs. }
+  assert (forall bf, In bf newfiles -> find_file (b_blobs v) (bf_id bf) = None) as NewNone.
+  { intros bf HI. apply find_file_none. intros C. apply in_map_iff in C.
+    destruct C as (bf' & E & HI'). specialize (IB1 bf' HI'). destruct (NF bf HI) as [G _]. lia. }
+  assert (NoDup (map bf_id (b_blobs v'))) as NDids.
+  { rewrite EB. apply NoDup_map_filter. rewrite map_app. apply NoDup_app_intro'.
+    - apply (bi_fids _ _ I).
+    - exact NDf.
+    - intros x HA HB. apply in_map_iff in HA, HB.
+      destruct HA as (a & <- & HA), HB as (b & E & HB).
+      specialize (IB1 a HA). destruct (NF b HB) as [G _]. lia. }
+  assert (Permutation (vptrs v') (Nn ++ K)) as PV'.
+  { rewrite vptrs_tptrs. unfold v'. rewrite with_merge_tables, tptrs_app. exact PN. }
+  constructor.
+  - (* table ids *)
+    unfold v'. rewrite with_merge_tables, map_app. apply NoDup_app_intro'.
+    + exact NDt.
+    + apply NoDup_map_filter. apply (bi_tids _ _ I).
+    + intros x HA HB. apply in_map_iff in HA. destruct HA as (t & <- & HA).
+      apply (FRt t HA). apply in_map_iff in HB. destruct HB as (t' & E & HB).
+      rewrite <- E. apply in_map. eapply in_rest_tables; eauto.
+  - exact NDids.
+  - apply with_merge_gkeys. apply (bi_gkeys _ _ I).
+  - intros bf HI. rewrite EB in HI. apply filter_In in HI. destruct HI as [HI _].
+    apply in_app_or in HI. destruct HI as [HI|HI]; [apply (bi_files _ _ I bf HI) | apply NF; exact HI].
+  - intros t e Ht He. unfold v' in Ht. rewrite with_merge_tables in Ht.
+    apply in_app_or in Ht. destruct Ht as [Ht|Ht]; [eauto|].
+    eapply (bi_wf _ _ I); [eapply in_rest_tables; eauto | exact He].
+  - (* every pointer resolves *)
+    intros p Hp. apply (Permutation_in _ PV') in Hp. apply in_app_or in Hp.
+    destruct Hp as [Hp|Hp].
+    + rewrite <- (RN p Hp). apply presolve_same_file. apply FFnew.
+      * apply find_file_none. intros C. apply in_map_iff in C. destruct C as (bf & E & HI).
+        specialize (IB1 bf HI). specialize (Nge p Hp). lia.
+      * intros C. specialize (DRlt _ C). specialize (Nge p Hp). lia.
+    + pose proof (bi_res _ _ I p (KV p Hp)) as R. rewrite <- R. apply presolve_same_file.
+      apply presolve_spec in R. destruct R as (bf & fr & F & _).
+      rewrite F. apply FFold; [exact F | apply DRK; exact Hp].
+  - (* distinct pointers, distinct blobs *)
+    eapply Permutation_NoDup; [apply Permutation_map; apply Permutation_sym; exact PV'|].
+    rewrite map_app. apply NoDup_app_intro'.
+    + exact NDn.
+    + rewrite map_app in NDLK. eapply NoDup_app_r''; eauto.
+    + intros x HA HB. apply in_map_iff in HA, HB.
+      destruct HA as (a & <- & HA), HB as (b & E & HB). unfold tgt in E. inversion E.
+      specialize (Nge a HA). specialize (Plt b (KV b HB)). lia.
+  - (* statistics *)
+    intros bf HI. rewrite (garbage_of_in v' bf NDids HI).
+    unfold v'. rewrite with_merge_gc_get by (now apply in_map). fold v'.
+    rewrite (garb_perm _ _ bf PV'), DIFF.
+    pose proof HI as HI'. rewrite EB in HI'. apply filter_In in HI'. destruct HI' as [HI' ND'].
+    apply negb_true_iff, memN_false in ND'.
+    apply in_app_or in HI'. destruct HI' as [Hold|Hnew].
+    + (* a file of the old version that stays *)
+      rewrite garb_app_other.
+      2:{ intros p Hp E. specialize (Nge p Hp). specialize (IB1 bf Hold). lia. }
+      rewrite (garb_diff L K bf NDLK).
+      * apply gce_eq_gadd.
+        pose proof (bi_gc _ _ I bf Hold) as G.
+        rewrite (garbage_of_in v bf (bi_fids _ _ I) Hold) in G.
+        rewrite (garb_perm _ _ bf PV) in G.
+        assert (garb (L ++ M ++ K) bf = garb (L ++ K) bf) as EG.
+        { rewrite (garb_perm (L ++ M ++ K) (M ++ (L ++ K))).
+          - apply garb_app_other. intros p Hp E. apply ND'. rewrite <- E. apply DRM. exact Hp.
+          - rewrite !app_assoc. apply Permutation_app_tail. apply Permutation_app_comm. }
+        now rewrite EG in G.
+      * apply (bi_files _ _ I bf Hold).
+      * intros p Hp E. eapply presolve_ptr_frame; [apply (bi_res _ _ I p (LV p Hp))|].
+        rewrite E. apply find_file_in; [apply (bi_fids _ _ I) | exact Hold].
+    + (* a new file: everything is pointed to, nothing was ever counted *)
+      rewrite (garb_all_pointed (Nn ++ K) bf).
+      2:{ intros fr Hf. rewrite pointed_app, (COV bf fr Hnew Hf). reflexivity. }
+      destruct (NF bf Hnew) as [G _].
+      rewrite (gc_get_notin (b_gc v)).
+      2:{ intros C. specialize (IB2 _ C). lia. }
+      rewrite psum_none.
+      2:{ intros p Hp E. specialize (Plt p (LV p Hp)). lia. }
+      apply gce_eq_refl.
+Qed.
+
+(** * 9. Dropping tables *)
+
+Lemma gce_false_intro a b : g_len a = g_len b -> g_bytes a = g_bytes b -> gce_eq false a b.
+Proof. intros A B. repeat split; auto. discriminate. Qed.
+
+Lemma gc_get_add_nodisk m f x f' :
+  gce_eq false (gc_get (gc_add_nodisk m f x) f')
+               (if f =? f' then gadd (gc_get m f) x else gc_get m f').
+Proof.
+  unfold gc_add_nodisk. rewrite gc_get_add_with. destruct (f =? f'); [|apply gce_eq_refl].
+  destruct (gc_mem m f) eqn:M.
+  - apply gce_false_intro; reflexivity.
+  - rewrite gc_get_notin by (now apply gc_mem_false). rewrite gadd_zero_l. apply gce_eq_refl.
+Qed.
+
+Lemma gc_get_fold_nodisk lk : forall m f,
+  gce_eq false (gc_get (fold_left (fun acc kx => gc_add_nodisk acc (fst kx) (snd kx)) lk m) f)
+               (gadd (gc_get m f) (gtot lk f)).
+Proof.
+  induction lk as [|[k x] lk IH]; intros m f; cbn [fold_left gtot fst snd].
+  - rewrite gadd_zero_r. apply gce_eq_refl.
+  - eapply gce_eq_trans; [apply IH|].
+    pose proof (gc_get_add_nodisk m k x f) as H. destruct (k =? f) eqn:E.
+    + apply N.eqb_eq in E. subst k. rewrite gadd_assoc. now apply gce_eq_gadd.
+    + now apply gce_eq_gadd.
+Qed.
+
+Lemma gc_get_add_linked m ents f :
+  gce_eq false (gc_get (add_linked m ents) f) (gadd (gc_get m f) (psum f (ptrs ents))).
+Proof.
+  unfold add_linked, linked_of. rewrite <- gtot_of_log. apply gc_get_fold_nodisk.
+Qed.
+
+Lemma gc_get_drop_fold (tabs : list (N * list entry)) : forall m f,
+  gce_eq false (gc_get (fold_left (fun acc t => add_linked acc (snd t)) tabs m) f)
+               (gadd (gc_get m f) (psum f (tptrs tabs))).
+Proof.
+  induction tabs as [|t tabs IH]; intros m f; cbn [fold_left].
+  - cbn. rewrite gadd_zero_r. apply gce_eq_refl.
+  - eapply gce_eq_trans; [apply IH|].
+    change (tptrs (t :: tabs)) with (ptrs (snd t) ++ tptrs tabs).
+    rewrite psum_app, gadd_assoc. apply gce_eq_gadd. apply gc_get_add_linked.
+Qed.
+
+Lemma keys_fold_nodisk_nodup lk : forall m,
+  NoDup (map fst m) ->
+  NoDup (map fst (fold_left (fun acc kx => gc_add_nodisk acc (fst kx) (snd kx)) lk m)).
+Proof.
+  induction lk as [|[k x] lk IH]; intros m ND; cbn [fold_left]; [exact ND|].
+  apply IH. now apply keys_add_with_nodup.
+Qed.
+
+Lemma keys_drop_fold_nodup (tabs : list (N * list entry)) : forall m,
+  NoDup (map fst m) ->
+  NoDup (map fst (fold_left (fun acc t => add_linked acc (snd t)) tabs m)).
+Proof.
+  induction tabs as [|t tabs IH]; intros m ND; cbn [fold_left]; [exact ND|].
+  apply IH. unfold add_linked. now apply keys_fold_nodisk_nodup.
+Qed.
+
+(** the statistics plus the callback sum over removed pointers [L] is the brute-force count
+    of what remains pointed to by [Q] *)
+Lemma exact_after_removal d v bf L Q :
+  BInvG d v -> In bf (b_blobs v) -> Permutation (vptrs v) (L ++ Q) ->
+  gce_eq d (gadd (gc_get (b_gc v) (bf_id bf)) (psum (bf_id bf) L)) (gsum (garb Q bf)).
+Proof.
+  intros I HI PV.
+  assert (NoDup (map tgt (L ++ Q))) as ND.
+  { eapply Permutation_NoDup; [apply Permutation_map; exact PV | apply (bi_inj _ _ I)]. }
+  rewrite (garb_diff L Q bf ND).
+  - apply gce_eq_gadd. pose proof (bi_gc _ _ I bf HI) as G.
+    rewrite (garbage_of_in v bf (bi_fids _ _ I) HI) in G. now rewrite (garb_perm _ _ bf PV) in G.
+  - apply (bi_files _ _ I bf HI).
+  - intros p Hp E. eapply presolve_ptr_frame.
+    + apply (bi_res _ _ I p). eapply Permutation_in; [apply Permutation_sym; exact PV|].
+      apply in_or_app. now left.
+    + rewrite E. apply find_file_in; [apply (bi_fids _ _ I) | exact HI].
+Qed.
+
+Theorem blob_drop_tables_inv d tids v :
+  BInvG d v -> frames_pos (b_blobs v) -> BInvG false (blob_drop_tables tids v).
+Proof.
+  intros I POS. unfold blob_drop_tables.
+  destruct (negb (tids_known tids v)); [eapply BInvG_weaken; eauto|].
+  destruct (is_nil (sel_tables tids (b_tables v))); [eapply BInvG_weaken; eauto|].
+  set (D := sel_tables tids (b_tables v)). set (R := rest_tables tids (b_tables v)).
+  set (gc' := fold_left (fun acc t => add_linked acc (snd t)) D (b_gc v)).
+  set (blobs' := filter (fun bf => negb (is_dead gc' bf)) (b_blobs v)).
+  pose proof (vptrs_split tids v) as PV. fold D R in PV.
+  assert (NoDup (map bf_id blobs')) as NDids by (apply NoDup_map_filter, (bi_fids _ _ I)).
+  (* the new statistics are exact (len, bytes) for every old file w.r.t. the remaining tables *)
+  assert (forall bf, In bf (b_blobs v) ->
+            gce_eq false (gc_get gc' (bf_id bf)) (gsum (garb (tptrs R) bf))) as EX.
+  { intros bf HI. eapply gce_eq_trans; [apply gc_get_drop_fold|].
+    apply (exact_after_removal false v bf (tptrs D) (tptrs R));
+      [eapply BInvG_weaken; eauto | exact HI | exact PV]. }
+  assert (forall p, In p (tptrs R) -> In p (vptrs v)) as RV.
+  { intros p Hp. eapply Permutation_in; [apply Permutation_sym; exact PV|].
+    apply in_or_app. now right. }
+  constructor; cbn [b_tables b_blobs b_gc].
+  - apply NoDup_map_filter, (bi_tids _ _ I).
+  - exact NDids.
+  - apply keys_drop_fold_nodup, (bi_gkeys _ _ I).
+  - intros bf HI. apply filter_In in HI. apply (bi_files _ _ I bf). tauto.
+  - intros t e Ht He. eapply (bi_wf _ _ I); [eapply in_rest_tables; eauto | exact He].
+  - intros p Hp. change (In p (tptrs R)) in Hp.
+    pose proof (bi_res _ _ I p (RV p Hp)) as RS. rewrite <- RS. apply presolve_same_file.
+    apply presolve_spec in RS. destruct RS as (bf & fr & F & Hf & _).
+    rewrite F. pose proof (find_file_some _ _ _ F) as [HI Eid].
+    rewrite <- Eid. apply find_file_in; [exact NDids|]. apply filter_In. split; [exact HI|].
+    apply negb_true_iff. destruct (is_dead gc' bf) eqn:DD; [|reflexivity]. exfalso.
+    apply find_frame_in in Hf. destruct Hf as [Hfr Eo].
+    pose proof (proj1 (is_dead_spec gc' (tptrs R) bf (EX bf HI)
+                         (proj1 (bi_files _ _ I bf HI))
+                         (fun x Hx => POS bf x HI Hx)) DD fr Hfr) as NP.
+    rewrite Eo in NP. rewrite (presolve_pointed _ _ _ _ Hp F) in NP. discriminate.
+  - change (NoDup (map tgt (tptrs R))).
+    assert (NoDup (map tgt (tptrs D ++ tptrs R))) as ND.
+    { eapply Permutation_NoDup; [apply Permutation_map; exact PV | apply (bi_inj _ _ I)]. }
+    rewrite map_app in ND. eapply NoDup_app_r''; eauto.
+  - intros bf HI.
+    assert (In bf (b_blobs v)) as HI' by (apply filter_In in HI; tauto).
+    unfold garbage_of. cbn [b_blobs]. rewrite (find_file_in _ _ NDids HI).
+    change (vptrs _) with (tptrs R). apply EX. exact HI'.
+Qed.
+
+(** after a (non-trivial) drop no file of the version is dead: every file has a live pointer *)
+Theorem blob_drop_tables_no_dead d tids v :
+  BInvG d v -> frames_pos (b_blobs v) ->
+  tids_known tids v = true -> sel_tables tids (b_tables v) <> [] ->
+  forall bf, In bf (b_blobs (blob_drop_tables tids v)) ->
+  exists p, In p (vptrs (blob_drop_tables tids v)) /\ pf p = bf_id bf.
+Proof.
+  intros I POS KN NE bf. pose proof (blob_drop_tables_inv d tids v I POS) as I'.
+  revert I'. unfold blob_drop_tables. rewrite KN. cbn [negb].
+  destruct (is_nil (sel_tables tids (b_tables v))) eqn:NIL;
+    [apply is_nil_spec in NIL; contradiction|].
+  set (gc' := fold_left _ _ _). intros I' HI. cbn [b_blobs] in HI.
+  pose proof HI as HI0. apply filter_In in HI. destruct HI as [HI ND]. apply negb_true_iff in ND.
+  set (v' := mkBV _ _ _) in *.
+  assert (frames_pos (b_blobs v')) as POS'.
+  { intros b fr Hb Hf. cbn [b_blobs v'] in Hb. apply filter_In in Hb. eapply POS; [apply Hb | exact Hf]. }
+  destruct (bi_files _ _ I' bf HI0) as [NEf _].
+  pose proof (BInv_is_dead false v' bf I' POS' HI0) as DS. cbn [b_gc v'] in DS.
+  destruct (frames bf) as [|fr0 rest] eqn:EF; [congruence|].
+  assert (exists fr, In fr (frames bf) /\ pointed (vptrs v') (bf_id bf) (fr_off fr) = true) as (fr & Hf & PT).
+  { destruct (existsb (fun fr => pointed (vptrs v') (bf_id bf) (fr_off fr)) (frames bf)) eqn:EX.
+    - apply existsb_exists in EX. exact EX.
+    - exfalso. assert (is_dead gc' bf = true); [|congruence]. apply DS. intros fr Hf.
+      rewrite <- EF in Hf.
+      destruct (pointed (vptrs v') (bf_id bf) (fr_off fr)) eqn:PT; [|reflexivity].
+      assert (existsb (fun fr => pointed (vptrs v') (bf_id bf) (fr_off fr)) (frames bf) = true);
+        [|congruence].
+      apply existsb_exists. eauto. }
+  apply pointed_true in PT. apply in_map_iff in PT. destruct PT as (p & E & Hp).
+  exists p. split; [exact Hp|]. unfold tgt in E. now inversion E.
+Qed.
+
+(** * 6. The blob file writer *)
+
+Lemma add_frame_in fs id fr bf' :
+  In bf' (add_frame fs id fr) ->
+  In bf' fs \/
+  (bf_id bf' = id /\
+   ((exists bf, In bf fs /\ bf_id bf = id /\ frames bf' = frames bf ++ [fr]) \/ frames bf' = [fr])).
+Proof.
+  induction fs as [|x fs IH]; cbn [add_frame].
+  - intros [<-|[]]. right. split; [reflexivity | now right].
+  - destruct (bf_id x =? id) eqn:E.
+    + apply N.eqb_eq in E. intros [<-|HI]; [|left; now right].
+      right. split; [reflexivity|]. left. exists x. split; [now left | auto].
+    + intros [<-|HI]; [left; now left|].
+      destruct (IH HI) as [H|(A & [(bf & B & C & D)|B])]; [left; now right| |].
+      * right. split; [exact A|]. left. exists bf. split; [now right | auto].
+      * right. split; [exact A | now right].
+Qed.
+
+Lemma add_frame_frames fs id fr bf' fr' :
+  In bf' (add_frame fs id fr) -> In fr' (frames bf') ->
+  (exists bf, In bf fs /\ bf_id bf = bf_id bf' /\ In fr' (frames bf)) \/ (bf_id bf' = id /\ fr' = fr).
+Proof.
+  intros HI Hf. destruct (add_frame_in _ _ _ _ HI) as [H|(A & [(bf & B & C & D)|B])].
+  - left. exists bf'. auto.
+  - rewrite D in Hf. apply in_app_or in Hf. destruct Hf as [Hf|[<-|[]]].
+    + left. exists bf. split; [exact B|]. split; [congruence | exact Hf].
+    + right. auto.
+  - rewrite B in Hf. destruct Hf as [<-|[]]. right. auto.
+Qed.
+
+Lemma add_frame_ids fs id fr :
+  map bf_id (add_frame fs id fr)
+  = if memN id (map bf_id fs) then map bf_id fs else map bf_id fs ++ [id].
+Proof.
+  induction fs as [|x fs IH]; cbn [add_frame map memN existsb app]; [reflexivity|].
+  rewrite (N.eqb_sym id). destruct (bf_id x =? id) eqn:E; cbn [orb map bf_id].
+  - apply N.eqb_eq in E. now rewrite E.
+  - fold (memN id (map bf_id fs)). rewrite IH. destruct (memN id (map bf_id fs)); reflexivity.
+Qed.
+
+Lemma find_app_some {A} (q : A -> bool) l l' x : find q l = Some x -> find q (l ++ l') = Some x.
+Proof.
+  induction l as [|y l IH]; cbn [find app]; [discriminate|]. destruct (q y); auto.
+Qed.
+
+(** appending a blob never changes a lookup that succeeded *)
+Lemma find_frame_add_mono fs id fr f o x :
+  find_frame fs f o = Some x -> find_frame (add_frame fs id fr) f o = Some x.
+Proof.
+  unfold find_frame, find_file. induction fs as [|y fs IH]; cbn [find add_frame]; [discriminate|].
+  destruct (bf_id y =? id) eqn:E.
+  - cbn [find bf_id]. apply N.eqb_eq in E. rewrite <- E.
+    destruct (bf_id y =? f); [|auto]. cbn [frames]. apply find_app_some.
+  - cbn [find]. destruct (bf_id y =? f); auto.
+Qed.
+
+Lemma find_frame_add_new fs id fr :
+  (forall bf x, In bf fs -> bf_id bf = id -> In x (frames bf) -> fr_off x <> fr_off fr) ->
+  find_frame (add_frame fs id fr) id (fr_off fr) = Some fr.
+Proof.
+  unfold find_frame, find_file. induction fs as [|y fs IH]; intros H; cbn [add_frame find].
+  - cbn [bf_id frames find]. now rewrite !N.eqb_refl.
+  - destruct (bf_id y =? id) eqn:E.
+    + cbn [find bf_id frames]. rewrite N.eqb_refl. apply N.eqb_eq in E.
+      assert (find (fun x => fr_off x =? fr_off fr) (frames y) = None) as FN.
+      { destruct (find _ (frames y)) as [x|] eqn:F; [|reflexivity].
+        apply find_frame_in in F. destruct F as [HI Eo]. exfalso.
+        apply (H y x (or_introl eq_refl) E HI Eo). }
+      clear H. induction (frames y) as [|z l IHl]; cbn [app find] in *.
+      * now rewrite N.eqb_refl.
+      * destruct (fr_off z =? fr_off fr); [discriminate | auto].
+    + cbn [find]. rewrite E. apply IH. intros bf x Hb. apply H. now right.
+Qed.
+
+Section Writer.
+  Variable Fp : frame -> Prop.
+
+  Record WInv (lo : N) (w : bwriter) (P : list ptr) : Prop := mkWInv {
+    wi_id : lo <= bw_id w /\ bw_id w < bw_next w;
+    wi_ids : forall bf, In bf (bw_files w) -> lo <= bf_id bf /\ bf_id bf <= bw_id w;
+    wi_nodup : NoDup (map bf_id (bw_files w));
+    wi_ok : forall bf, In bf (bw_files w) -> file_ok_P bf;
+    wi_off : forall bf fr, In bf (bw_files w) -> bf_id bf = bw_id w -> In fr (frames bf) ->
+             fr_off fr < bw_off w;
+    wi_res : forall p, In p P -> presolve (bw_files w) p = true;
+    wi_inj : NoDup (map tgt P);
+    wi_cov : forall bf fr, In bf (bw_files w) -> In fr (frames bf) ->
+             pointed P (bf_id bf) (fr_off fr) = true;
+    wi_fp : forall bf fr, In bf (bw_files w) -> In fr (frames bf) -> Fp fr }.
+
+  Lemma WInv_new lo : WInv lo (bw_new lo) [].
+  Proof.
+    constructor; cbn [bw_new bw_id bw_next bw_files bw_off]; try (intros; contradiction).
+    - lia.
+    - constructor.
+    - constructor.
+  Qed.
+
+  Lemma WInv_perm lo w P Q : Permutation P Q -> WInv lo w P -> WInv lo w Q.
+  Proof.
+    intros HP [H1 H2 H3 H4 H5 H6 H7 H8 H9]. constructor; auto.
+    - intros p Hp. apply H6. eapply Permutation_in; [apply Permutation_sym; exact HP | exact Hp].
+    - eapply Permutation_NoDup; [apply Permutation_map; exact HP | exact H7].
+    - intros bf fr Hb Hf. specialize (H8 bf fr Hb Hf). apply pointed_true in H8. apply pointed_true.
+      eapply Permutation_in; [apply Permutation_map; exact HP | exact H8].
+  Qed.
+
+  Lemma bw_write_inv lo target w P k s v disk w' h :
+    WInv lo w P -> bw_write target w k s v disk = (w', h) ->
+    Fp (mkFr k s (bw_off w) v disk) ->
+    h = (bw_id w, bw_off w) /\
+    find_frame (bw_files w') (fst h) (snd h) = Some (mkFr k s (bw_off w) v disk) /\
+    (forall f o x, find_frame (bw_files w) f o = Some x -> find_frame (bw_files w') f o = Some x) /\
+    WInv lo w' (mkP k (fst h) (snd h) disk (lenN v) :: P).
+  Proof.
+    intros [H1 H2 H3 H4 H5 H6 H7 H8 H9] HW HF. unfold bw_write in HW.
+    set (fr := mkFr k s (bw_off w) v disk) in *.
+    set (fs := add_frame (bw_files w) (bw_id w) fr) in *.
+    assert (bw_files w' = fs /\ h = (bw_id w, bw_off w)) as [EF Eh].
+    { destruct (target <=? bw_off w + frame_span k disk); inversion HW; auto. }
+    subst h. cbn [fst snd]. split; [reflexivity|].
+    assert (find_frame fs (bw_id w) (bw_off w) = Some fr) as FN.
+    { apply (find_frame_add_new (bw_files w) (bw_id w) fr).
+      intros bf x Hb Ei Hx. specialize (H5 bf x Hb Ei Hx). cbn [fr fr_off]. lia. }
+    assert (forall f o x, find_frame (bw_files w) f o = Some x -> find_frame fs f o = Some x) as MONO
+      by (intros; now apply find_frame_add_mono).
+    rewrite EF. split; [exact FN|]. split; [exact MONO|].
+    (* facts that do not depend on rotation *)
+    assert (forall bf, In bf fs -> lo <= bf_id bf /\ bf_id bf <= bw_id w) as IDS.
+    { intros bf HI. destruct (add_frame_in _ _ _ _ HI) as [H|(A & _)]; [auto | lia]. }
+    assert (NoDup (map bf_id fs)) as ND.
+    { unfold fs. rewrite add_frame_ids. destruct (memN (bw_id w) (map bf_id (bw_files w))) eqn:M;
+        [exact H3|]. apply memN_false in M. apply NoDup_app_intro'; [exact H3 | repeat constructor |].
+      intros x HA [<-|[]]. exact (M HA). }
+    assert (forall bf, In bf fs -> file_ok_P bf) as OK.
+    { intros bf HI. destruct (add_frame_in _ _ _ _ HI) as [H|(A & [(b & B & C & D)|B])]; [auto| |].
+      - unfold file_ok_P. rewrite D. split; [destruct (frames b); discriminate|].
+        rewrite map_app. apply NoDup_app_intro'; [apply (H4 b B) | repeat constructor |].
+        intros x HA [<-|[]]. apply in_map_iff in HA. destruct HA as (y & Ey & Hy).
+        specialize (H5 b y B C Hy). cbn [fr fr_off] in Ey. lia.
+      - unfold file_ok_P. rewrite B. split; [discriminate | repeat constructor; intros []]. }
+    assert (forall bf x, In bf fs -> bf_id bf = bw_id w -> In x (frames bf) ->
+                         fr_off x < bw_off w + frame_span k disk) as OFF.
+    { intros bf x HI Ei Hx. unfold frame_span, BLOB_HEADER_LEN.
+      destruct (add_frame_frames _ _ _ _ _ HI Hx) as [(b & B & C & D)|[_ ->]].
+      - assert (fr_off x < bw_off w) by (apply (H5 b x B); congruence). lia.
+      - cbn [fr fr_off]. lia. }
+    assert (forall p, In p (mkP k (bw_id w) (bw_off w) disk (lenN v) :: P) -> presolve fs p = true) as RES.
+    { intros p [<-|Hp].
+      - unfold presolve. cbn [pf po pk ps pd]. rewrite FN. cbn [fr fr_key fr_val fr_disk].
+        now rewrite key_eqb_refl, !N.eqb_refl.
+      - specialize (H6 p Hp). unfold presolve in *.
+        destruct (find_frame (bw_files w) (pf p) (po p)) as [x|] eqn:F; [|discriminate].
+        now rewrite (MONO _ _ _ F). }
+    assert (NoDup (map tgt (mkP k (bw_id w) (bw_off w) disk (lenN v) :: P))) as INJ.
+    { cbn [map]. constructor; [|exact H7]. intros HI. apply in_map_iff in HI.
+      destruct HI as (p & E & Hp). unfold tgt in E. cbn [pf po] in E. inversion E as [[E1 E2]].
+      specialize (H6 p Hp). apply presolve_spec in H6. destruct H6 as (bf & x & F & Fx & _).
+      apply find_file_some in F. destruct F as [Hb Ei]. apply find_frame_in in Fx.
+      destruct Fx as [Hx Eo]. assert (fr_off x < bw_off w) by (apply (H5 bf x Hb); congruence). lia. }
+    assert (forall bf x, In bf fs -> In x (frames bf) ->
+              pointed (mkP k (bw_id w) (bw_off w) disk (lenN v) :: P) (bf_id bf) (fr_off x) = true) as COV.
+    { intros bf x HI Hx. rewrite pointed_cons. cbn [pf po].
+      destruct (add_frame_frames _ _ _ _ _ HI Hx) as [(b & B & C & D)|[Ei ->]].
+      - rewrite <- C, (H8 b x B D). apply orb_true_r.
+      - rewrite Ei. cbn [fr fr_off]. now rewrite !N.eqb_refl. }
+    assert (forall bf x, In bf fs -> In x (frames bf) -> Fp x) as FP.
+    { intros bf x HI Hx. destruct (add_frame_frames _ _ _ _ _ HI Hx) as [(b & B & C & D)|[_ ->]];
+        [eapply H9; eauto | exact HF]. }
+    destruct (target <=? bw_off w + frame_span k disk); inversion HW; subst w';
+      constructor; cbn [bw_id bw_next bw_off bw_files]; auto.
+    - lia.
+    - intros bf HI. specialize (IDS bf HI). lia.
+    - intros bf x HI Ei. specialize (IDS bf HI). lia.
+  Qed.
+End Writer.
